@@ -93,7 +93,7 @@ func (y *c13Sys) audit(inflight map[string]int) (string, string) {
 	return "", ""
 }
 
-var c13Events = []string{"req-ok", "req-404", "req-500", "req-refused", "req-abort", "eject-all", "clock+1.1s", "clock+11s", "req-client-gone"}
+var c13Events = []string{"req-ok", "req-404", "req-500", "req-refused", "req-abort", "eject-all", "clock+1.1s", "clock+11s", "req-client-gone", "req-103-then-500"}
 
 type c13Params struct {
 	Strategy         string
@@ -126,7 +126,7 @@ func (in *c13Inst) Step(ev int) *vh.HViol {
 		res := in.y.k.RequestCancelled("10.0.0.1")
 		in.out = fmt.Sprintf("%d/%v", res.Status, res.Aborted)
 	default:
-		mode := map[string]string{"req-ok": "ok", "req-404": "404", "req-500": "500", "req-refused": "refuse", "req-abort": "abort"}[e]
+		mode := map[string]string{"req-ok": "ok", "req-404": "404", "req-500": "500", "req-refused": "refuse", "req-abort": "abort", "req-103-then-500": "103+500"}[e]
 		in.y.issued++
 		res := in.y.k.RequestMode("10.0.0.1", mode)
 		in.out = fmt.Sprintf("%d/%v", res.Status, res.Aborted)
